@@ -53,6 +53,8 @@ RULES = {
               "BFS pops the oldest entry and DFS the newest",
     "C10-S1": "element-kind agreement: parent / children / seen tables, id loops and the random root of one class all range over the same "
               "element kind; the random root is in range",
+    "C10-N1": "a None-defaulted parameter that selects the root element is tested with `is None` / `is not None`, never by truthiness "
+              "(`x or default`, `if x`, `if not x`): element index 0 is a valid root; the requested root reaches self.root unchanged",
     "C10-A1": "all callables bound to one local name on sibling branches (edge_length of Kruskal) accept the arity of every call of that name",
 }
 
@@ -63,13 +65,13 @@ def run(ctx):
         ctx.repo.cls(modname, cname)
         fn = ctx.repo.func(modname, cname + ".compute")
         n += bfs_tree(ctx, modname, cname, fn, kind, excl)
-    ctx.require_count("C10 BFS trees", n, 3)
     avoid_edge_predicate(ctx)
     c1_computed(ctx)
     k1_kruskal(ctx)
     f1_forests(ctx)
     t1_traverse(ctx)
     s1_kinds(ctx)
+    n1_none_defaults(ctx)
     fn = ctx.repo.func(EDGE, "EdgeMinimalSpanningTree.compute")
     nb, _ = sk.arity_agreement(ctx, "C10-A1", EDGE, fn)
     if nb == 0:
@@ -217,7 +219,6 @@ def bfs_tree(ctx, modname, cname, fn, kind, excl):
                      and au.const(e.comparators[0], 0) is None and isinstance(e.comparators[0], ast.Constant) and not p for e, p in conds)
             ctx.check(nn, "C10-X1", s, f"neighbour returned by {au.call_tail(d)} is used without `is not None` test",
                       f"{au.call_tail(d)} returns None on the border: seen[None] raises TypeError", note="neighbour is not None")
-    ctx.require_count(f"C10-X1 enqueues of {cname}", n_push, 1)
     # ---- B1: mark, parent, expansion, root
     marks = [st for st in au.stmts(loop.body) if isinstance(st, ast.Assign) and len(st.targets) == 1 and sk.is_sub(st.targets[0], SEEN, child)]
     gm = [m for m in marks if au.const(m.value) is True
@@ -537,7 +538,6 @@ def c1_computed(ctx):
                   "traverse() then raises 'Tree was not computed' although compute() was called (forests call traverse right after compute): "
                   + ", ".join(f"{k} at line {getattr(nd, 'lineno', 'end')}" for k, nd in bad),
                   note="_computed set on all normal exits")
-    ctx.require_count("C10-C1 compute methods", n, 4)
     # initial value and writers
     init = repo.func(BASE, "SpanningTree.__init__")
     w = [st for st in au.stmts(init.body) if isinstance(st, (ast.Assign, ast.AnnAssign)) and any(au.is_self_attr(t, "_computed") for t in au.assign_targets(st))]
@@ -579,7 +579,8 @@ def c1_computed(ctx):
                 return state | {"tested"}
         return state
     flow.Flow(t_stmt, t_test, refine).run(tr.body, frozenset())
-    ctx.require_count("C10-C1 table reads in traverse", len(uses), 2)
+    if not uses:
+        ctx.fail("C10-C1", site, "traverse no longer reads self.root / self.children", "the traversal must walk the children table from the root")
     badu = [x for x, okk in uses.values() if not okk]
     ctx.check(not badu, "C10-C1", site, "traverse reads the tree tables without having tested `self._computed`",
               "on a tree that was not computed traverse silently yields the bare root instead of raising: "
@@ -887,7 +888,6 @@ def f1_forests(ctx):
             f"self.mesh.{kind}" in au.src(dv) or (dv is not None and f"self.mesh.id_{kind}" in au.src(dv))
         ctx.check(okv, "C10-F1", site, f"visited table is not all-False over self.mesh.{kind}", au.src(dv) if dv is not None else "no definition",
                   note=f"visited = [False] * len(self.mesh.{kind})")
-    ctx.require_count("C10-F1 forests", n, 3)
 
 
 # ----------------------------------------------------------------------- C10-T1
@@ -1009,4 +1009,82 @@ def s1_kinds(ctx):
             ctx.check(okt, "C10-S1", ctx.site(modname, init), f"{cname}.__init__ does not create parent / a fresh list per element in children / empty edges",
                       f"{ {k: au.src(v) for k, v in tabs.items()} }: `[[]] * n` would share one children list between all elements",
                       note="fresh tables")
-    ctx.require_count("C10-S1 table sizes / id loops", n, 14)
+    if n < 1:
+        ctx.fail("C10-S1", ctx.site(EDGE, repo.func(EDGE, "EdgeSpanningTree.__init__")), "tables sized by the element kind not found",
+                 "no `len(self.mesh.<kind>)` / `self.mesh.id_<kind>` in the tree classes")
+
+
+# ----------------------------------------------------------------------- C10-N1
+TREE_INITS = [(EDGE, "EdgeSpanningTree"), (EDGE, "EdgeMinimalSpanningTree"), (FACE, "FaceSpanningTree"), (CELL, "CellSpanningTree"),
+              (EDGE, "EdgeSpanningForest"), (FACE, "FaceSpanningForest"), (CELL, "CellSpanningForest")]
+
+
+def _bool_context_uses(fn, name):
+    """Name nodes of `name` evaluated for truthiness: operand of and/or/not, test of if / while / conditional expression / comprehension filter / assert"""
+    out = []
+    for n in au.walk(fn):
+        if not (isinstance(n, ast.Name) and n.id == name and isinstance(n.ctx, ast.Load)):
+            continue
+        p = au.parent(n)
+        if isinstance(p, ast.BoolOp) or (isinstance(p, ast.UnaryOp) and isinstance(p.op, ast.Not)):
+            out.append(n)
+        elif isinstance(p, (ast.If, ast.While, ast.IfExp, ast.Assert)) and p.test is n:
+            out.append(n)
+        elif isinstance(p, ast.comprehension) and any(n is t for t in p.ifs):
+            out.append(n)
+        elif isinstance(p, ast.Call) and au.call_tail(p) == "bool":
+            out.append(n)
+    return out
+
+
+def n1_none_defaults(ctx):
+    repo = ctx.repo
+    n = 0
+    for modname, cname in TREE_INITS:
+        if not repo.has_func(modname, cname + ".__init__"):
+            continue
+        fn = repo.func(modname, cname + ".__init__")
+        site = ctx.site(modname, fn)
+        pos = fn.args.posonlyargs + fn.args.args
+        ndef = len(fn.args.defaults)
+        none_params = [a.arg for a, d in zip(pos[len(pos) - ndef:], fn.args.defaults) if isinstance(d, ast.Constant) and d.value is None] if ndef else []
+        none_params += [a.arg for a, d in zip(fn.args.kwonlyargs, fn.args.kw_defaults) if isinstance(d, ast.Constant) and d.value is None]
+        # root selectors: None-defaulted parameters that reach an assignment of self.root (value or guarding test)
+        root_stores = [st for st in au.stmts(fn.body) if isinstance(st, (ast.Assign, ast.AnnAssign)) and st.value is not None
+                       and any(au.is_self_attr(t, "root") for t in au.assign_targets(st))]
+        for p_ in none_params:
+            reaches = any(p_ in au.names(st.value) or any(p_ in au.names(e) for e, _ in sk.path_conds(st)) for st in root_stores)
+            if not reaches:
+                continue
+            n += 1
+            truthy = _bool_context_uses(fn, p_)
+            ctx.check(not truthy, "C10-N1", ctx.site(modname, fn, truthy[0] if truthy else fn),
+                      f"{cname}.__init__ tests the None-defaulted root parameter `{p_}` by truthiness",
+                      f"`{au.src(au.enclosing_stmt(truthy[0]))[:80]}`: element 0 is falsy, so a requested root 0 is treated as 'not given' and replaced "
+                      "by a random root (every forest starts its first tree from element 0)" if truthy else "",
+                      note=f"{p_} tested with `is None`")
+            # the requested root reaches self.root unchanged when given
+            given = []
+            for st in root_stores:
+                conds = sk.atoms(sk.path_conds(st))
+                v = st.value
+                if isinstance(v, ast.IfExp):
+                    ta = sk.atoms([(v.test, True)])
+                    if len(ta) == 1 and _is_none_test(ta[0][0], p_):
+                        given.append(v.orelse if ta[0][1] else v.body)
+                    continue
+                for e, pol in conds:
+                    if _is_none_test(e, p_) and not pol:
+                        given.append(v)
+            okg = len(given) == 1 and isinstance(given[0], ast.Name) and given[0].id == p_
+            if not truthy:
+                ctx.check(okg, "C10-N1", site, f"{cname}.__init__ does not store the requested `{p_}` in self.root when it is given",
+                          f"stores under `{p_} is not None`: {[au.src(g) for g in given]}", note=f"self.root = {p_} when given")
+    if n < 1:
+        ctx.fail("C10-N1", ctx.site(EDGE, repo.func(EDGE, "EdgeSpanningTree.__init__")), "root parameter of the tree constructors not found",
+                 "no None-defaulted parameter reaches self.root")
+
+
+def _is_none_test(e, name):
+    return isinstance(e, ast.Compare) and len(e.ops) == 1 and isinstance(e.ops[0], ast.Is) and isinstance(e.left, ast.Name) and e.left.id == name \
+        and isinstance(e.comparators[0], ast.Constant) and e.comparators[0].value is None
